@@ -346,9 +346,9 @@ def full_like(a, v, dtype=None, **kw):
     return _filled(np.shape(a), v, _like_kind(a, dtype))
 
 
-def eye(n, m=None, k=0, dtype=None, **kw):
-    n = int(P(n))
-    m = n if m is None else int(P(m))
+def eye(N, M=None, k=0, dtype=None, **kw):
+    n = int(P(N))
+    m = n if M is None else int(P(M))
     kind = _kind_of(dtype) or "float"
     out = _filled((n, m), 0, kind)
     one = ONE if kind == "float" else (1 if kind == "int" else True)
@@ -1118,10 +1118,13 @@ def np_mean(a, axis=None, dtype=None, out=None, keepdims=False, **kw):
     return s * Fraction(1, n)
 
 
-def np_prod(a, axis=None, **kw):
+def np_prod(a, axis=None, dtype=None, **kw):
     a = asarray(a)
     if a.dtype != object:
-        return san(np.prod(a, axis=axis, **kw), "prod")
+        if _kind_of(dtype) == "float":
+            a = to_obj(a)
+        else:
+            return san(np.prod(a, axis=axis, **kw), "prod")
     return san(np.multiply.reduce(a, axis=axis), "prod")
 
 
@@ -1317,6 +1320,8 @@ def native_getattr(it, obj, name):
             def _sort(*a, **k):
                 obj[...] = sort(obj, *a, **k)
             return _sort
+        if name == "fill":
+            return lambda v: array_setitem(obj, Ellipsis, v)
         if name in _ARR_SAFE:
             m = getattr(obj, name)
             if name == "reshape":
@@ -1714,7 +1719,7 @@ meshgrid trace diagonal cross outer kron tensordot cumsum diff add subtract mult
 atleast_1d atleast_2d atleast_3d split array_split hsplit vsplit column_stack row_stack take_along_axis
 put_along_axis unravel_index ravel_multi_index argwhere logical_and logical_or logical_not logical_xor any all
 count_nonzero shape ndim size copy block einsum_path searchsorted bincount lexsort rot90 compress choose select
-invert bitwise_and bitwise_or mod floor_divide cumprod isscalar iterable may_share_memory shares_memory
+broadcast_shapes invert bitwise_and bitwise_or mod floor_divide cumprod isscalar iterable may_share_memory shares_memory
 """.split()
 
 
